@@ -264,6 +264,20 @@ func (w *Worker) runInits() error {
 			return fmt.Errorf("init of %s: %v", sp.Pkg.Path(), err)
 		}
 	}
+	// harness packages may warm caches once (compiled opcode programs, once
+	// flags): func VerifSetup() runs concretely here, before the snapshot is frozen
+	st.lenient = false
+	saveConc := w.Opt.IsConcrete
+	w.Opt.IsConcrete = true
+	for _, sp := range w.P.InitPkgs {
+		if fn := sp.Func("VerifSetup"); fn != nil && len(fn.Blocks) > 0 {
+			if err := st.runToCompletion(fn, nil); err != nil {
+				w.Opt.IsConcrete = saveConc
+				return fmt.Errorf("VerifSetup of %s: %v", sp.Pkg.Path(), err)
+			}
+		}
+	}
+	w.Opt.IsConcrete = saveConc
 	for _, o := range st.objs {
 		o.frozen = true
 	}
